@@ -81,26 +81,47 @@ def shQualifiedValueShapesDisjoint := sh "qualifiedValueShapesDisjoint"
 def shQualifiedMinCountCC := sh "QualifiedMinCountConstraintComponent"
 def shQualifiedMaxCountCC := sh "QualifiedMaxCountConstraintComponent"
 
-structure Ctx where
-  o : Opts
+/-- what constraint evaluation reads: the graphs, the shape cache, the regex oracle -/
+structure Env where
   sg : Graph            -- shapes graph incl. system triples
   dg : Graph
   shapes : List Shape
   rx : Regex
+
+structure Ctx extends Env where
+  o : Opts
 
 abbrev Out := Except Failure (Bool × List Result)
 
 /-- a nested `other_shape.validate(executor, g, focus=v, _evaluation_path=path[:])` -/
 abbrev Rec := Shape → Term → List PathEntry → Out
 
-def foldOut {α} (xs : List α) (f : α → Out) : Out :=
-  xs.foldl (fun acc x => match acc with
+/-- `for x in xs: conf, rs = f(x); conforms &= conf; reports += rs` -/
+def foldOut {α} : List α → (α → Out) → Out
+  | [], _ => .ok (true, [])
+  | x :: xs, f =>
+    match f x with
     | .error e => .error e
-    | .ok (c, rs) => match f x with
+    | .ok (c, rs) =>
+      match foldOut xs f with
       | .error e => .error e
-      | .ok (c2, rs2) => .ok (c && c2, rs ++ rs2)) (.ok (true, []))
+      | .ok (c2, rs2) => .ok (c && c2, rs ++ rs2)
 
 def ofResults (rs : List Result) : Out := .ok (rs.isEmpty, rs)
+
+/-- a python loop `for x in xs: conf, rs = f(x); non_conformant |= fails(conf, rs); reports += rs;
+    if non_conformant and abort: break` — returns (non_conformant, reports) -/
+def loopE {α} (abort : Bool) (fails : Bool → List Result → Bool) (f : α → Out) :
+    List α → Except Failure (Bool × List Result)
+  | [] => .ok (false, [])
+  | x :: xs =>
+    match f x with
+    | .error e => .error e
+    | .ok (conf, rs) =>
+      if fails conf rs && abort then .ok (true, rs)
+      else match loopE abort fails f xs with
+        | .error e => .error e
+        | .ok (nc, rs') => .ok (fails conf rs || nc, rs ++ rs')
 
 def valueCount (fv : FV) : Nat := (fv.map fun (_, vs) => vs.length).sum
 
@@ -119,14 +140,28 @@ def logicalOver (rec : Rec) (s : Shape) (k : CKind) (path : List PathEntry) (fv 
     | .error e => .error e
     | .ok cs => if bad cs then .ok (false, [mkResult s k f (some v)]) else .ok (true, [])
 
-def resolveMembers (c : Ctx) (nodes : List Term) : Except Failure (List Shape) :=
+/-- sh:node against node shape `ns`: one result per (focus, value) that does not conform, with the
+    results of the nested evaluation as `sh:detail` -/
+def nodeOver (rec : Rec) (s : Shape) (path : List PathEntry) (fv : FV) (ns : Shape) : Out :=
+  foldOut fv fun (f, vs) => foldOut vs fun v =>
+    match rec ns v path with
+    | .error e => .error e
+    | .ok (conf, rs) =>
+      if !conf ∨ !rs.isEmpty then .ok (false, [mkResult s .node f (some v) (details := rs)])
+      else .ok (true, [])
+
+/-- sh:property against property shape `ps`: the nested property shape's own results -/
+def propertyOver (rec : Rec) (path : List PathEntry) (fv : FV) (ps : Shape) : Out :=
+  foldOut fv fun (_, vs) => foldOut vs fun v => rec ps v path
+
+def resolveMembers (c : Env) (nodes : List Term) : Except Failure (List Shape) :=
   mapE (fun n => match lookupShape c.shapes n with
     | some s => .ok s
     | none => .error (.runtime "")) nodes
 
 /-- evaluation of one constraint component of shape `s`;  `path` already ends with
     `[shape s, constr k s]` -/
-def evalConstraint (c : Ctx) (rec : Rec) (s : Shape) (k : CKind) (fv : FV) (path : List PathEntry) : Out :=
+def evalConstraint (c : Env) (rec : Rec) (s : Shape) (k : CKind) (fv : FV) (path : List PathEntry) : Out :=
   let sg := c.sg
   let dg := c.dg
   let objs := fun p => sg.objects s.node p
@@ -281,7 +316,7 @@ def evalConstraint (c : Ctx) (rec : Rec) (s : Shape) (k : CKind) (fv : FV) (path
       | some ps =>
         if inTriggers trig ps.node then .ok (true, []) else
         if !ps.isProp then .error (.runtime "") else
-        foldOut fv fun (_, vs) => foldOut vs fun v => rec ps v path
+        propertyOver rec path fv ps
   | .node =>
     if valueCount fv < 1 then .ok (true, []) else
     let trig := recursionTriggers path s.node k
@@ -291,12 +326,7 @@ def evalConstraint (c : Ctx) (rec : Rec) (s : Shape) (k : CKind) (fv : FV) (path
       | some ns =>
         if inTriggers trig ns.node then .ok (true, []) else
         if ns.isProp then .error (.runtime "") else
-        foldOut fv fun (f, vs) => foldOut vs fun v =>
-          match rec ns v path with
-          | .error e => .error e
-          | .ok (conf, rs) =>
-            if !conf ∨ !rs.isEmpty then .ok (false, [mkResult s k f (some v) (details := rs)])
-            else .ok (true, [])
+        nodeOver rec s path fv ns
   | .qualified =>
     if !s.isProp then .ok (true, []) else    -- ConstraintLoadWarning: ignored on node shapes
     let valueShapes := dedup (objs shQualifiedValueShape)
@@ -359,7 +389,7 @@ def shapeComponents (sg : Graph) (node : Term) (advanced : Bool) : List CKind :=
   (dedup ks.reverse).reverse
 
 /-- `Shape.value_nodes` (in-memory mode) -/
-def valueNodes (c : Ctx) (s : Shape) (foci : List Term) : Except Failure FV :=
+def valueNodes (c : Env) (s : Shape) (foci : List Term) : Except Failure FV :=
   if !s.isProp then .ok (foci.map fun f => (f, [f])) else
   match s.path with
   | none => .error (.raw "RuntimeError")
@@ -369,63 +399,65 @@ def valueNodes (c : Ctx) (s : Shape) (foci : List Term) : Except Failure FV :=
       | .ok vs => .ok (f, dedup vs)
       | .error e => .error (Failure.ofPathErr e)) foci
 
-/-- `Shape.validate(executor, g, focus, _evaluation_path)`.
-    `fuel` is `maxDepth + 1 − depth` (structural recursion = the code's own termination argument);
-    `path = none` ⇔ `_evaluation_path is None` (top-level call). -/
-def validateShape (c : Ctx) : Nat → Shape → Option (List Term) → Option (List PathEntry) → Out
-  | fuel, s, focus, path =>
-    if s.deactivated then .ok (true, []) else
-    let lhShape := focus.isNone
-    let focusList := match focus with
-      | some fs => fs
-      | none => focusNodes c.sg c.dg s.node
-    if focusList = [] then .ok (true, []) else
-    let filtered : Option (List Term) :=
-      match c.o.focusNodes with
-      | some fns => if lhShape ∧ fns ≠ [] then some (focusList.filter fun f => f.isIri ∧ f ∈ fns) else none
-      | none => none
-    if filtered = some [] then .ok (true, []) else
-    let focusList := dedup (filtered.getD focusList)
-    let topLevel := path.isNone
-    let path0 := path.getD []
-    if !topLevel ∧ path0.length / Caps.depthDivisor ≥ c.o.maxDepth then .error (.runtime "pathTooDeep") else
-    match valueNodes c s focusList with
+/-- focus resolution of `Shape.validate`: the explicit focus, or the shape's own targets, then the
+    `focus_nodes` option filter (only for shapes resolving their own targets).
+    `none` ⇔ the call returns `(True, [])` at once. -/
+def resolveFocus (c : Ctx) (s : Shape) (focus : Option (List Term)) : Option (List Term) :=
+  let focusList := match focus with
+    | some fs => fs
+    | none => focusNodes c.sg c.dg s.node
+  if focusList = [] then none else
+  match c.o.focusNodes with
+  | some fns =>
+    if focus.isNone ∧ fns ≠ [] then
+      let filtered := focusList.filter fun f => f.isIri ∧ f ∈ fns
+      if filtered = [] then none else some (dedup filtered)
+    else some (dedup focusList)
+  | none => some (dedup focusList)
+
+/-- `Shape.validate` from the depth test on: value nodes, then the constraint loop -/
+def validateCore (c : Ctx) (rec' : Rec) (s : Shape) (focusList : List Term)
+    (path : Option (List PathEntry)) : Out :=
+  let topLevel := path.isNone
+  let path0 := path.getD []
+  if !topLevel ∧ path0.length / Caps.depthDivisor ≥ c.o.maxDepth then .error (.runtime "pathTooDeep") else
+  match valueNodes c.toEnv s focusList with
+  | .error e => .error e
+  | .ok fv =>
+    let path1 := path0 ++ [.shape s.node]
+    let comps := shapeComponents c.sg s.node c.o.advanced
+    -- a nested evaluation does not stop early while severities are being waived
+    let abort := c.o.abortOnFirst && (topLevel || !(c.o.allowInfos || c.o.allowWarnings))
+    -- the constraint loop with the abort_on_first break
+    match loopE abort (constraintFails c.o topLevel)
+        (fun k => evalConstraint c.toEnv rec' s k fv (path1 ++ [.constr k s.node])) comps with
     | .error e => .error e
-    | .ok fv =>
-      let path1 := path0 ++ [.shape s.node]
-      let rec' : Rec := fun s' v p' =>
-        match fuel with
-        | 0 => .error (.runtime "pathTooDeep")
-        | f+1 => validateShape c f s' (some [v]) (some p')
-      let comps := shapeComponents c.sg s.node c.o.advanced
-      -- the constraint loop with the abort_on_first break
-      let res := comps.foldl (fun acc k => match acc with
-        | .error e => .error e
-        | .ok (nonConf, rs, stop) =>
-          if stop then .ok (nonConf, rs, stop) else
-          match evalConstraint c rec' s k fv (path1 ++ [.constr k s.node]) with
-          | .error e => .error e
-          | .ok (conf, rs2) =>
-            let nc := nonConf || constraintFails c.o topLevel conf rs2
-            .ok (nc, rs ++ rs2, nc && c.o.abortOnFirst)) (Except.ok (false, ([] : List Result), false))
-      match res with
-      | .error e => .error e
-      | .ok (nonConf, rs, _) => .ok (!nonConf, rs)
+    | .ok (nonConf, rs) => .ok (!nonConf, rs)
+
+/-- the body of `Shape.validate(executor, g, focus, _evaluation_path)`; `rec'` performs the nested
+    `other_shape.validate(...)` calls.  `path = none` ⇔ `_evaluation_path is None` (top-level call). -/
+def validateBody (c : Ctx) (rec' : Rec) (s : Shape) (focus : Option (List Term))
+    (path : Option (List PathEntry)) : Out :=
+  if s.deactivated then .ok (true, []) else
+  match resolveFocus c s focus with
+  | none => .ok (true, [])
+  | some focusList => validateCore c rec' s focusList path
+
+/-- `Shape.validate`: `fuel` is `maxDepth + 1 − depth` (structural recursion = the code's own
+    termination argument: the evaluation path grows by two entries per nesting level and the call
+    fails once `len(path) // 2 >= max_validation_depth`). -/
+def validateShape (c : Ctx) : Nat → Shape → Option (List Term) → Option (List PathEntry) → Out
+  | 0, s, focus, path =>
+    validateBody c (fun _ _ _ => .error (.runtime "pathTooDeep")) s focus path
+  | f+1, s, focus, path =>
+    validateBody c (fun s' v p' => validateShape c f s' (some [v]) (some p')) s focus path
 
 /-- `Validator.run` after the data graph has been prepared: all shapes, with the abort break -/
 def validateAll (c : Ctx) (shapes : List Shape) (focus : Option (List Term)) : Out :=
-  let res := shapes.foldl (fun acc s => match acc with
-    | .error e => .error e
-    | .ok (nonConf, rs, stop) =>
-      if stop then .ok (nonConf, rs, stop) else
-      match validateShape c (c.o.maxDepth + 1) s focus none with
-      | .error e => .error e
-      | .ok (conf, rs2) =>
-        let nc := nonConf || !conf
-        .ok (nc, rs ++ rs2, nc && c.o.abortOnFirst)) (Except.ok (false, ([] : List Result), false))
-  match res with
+  match loopE c.o.abortOnFirst (fun conf _ => !conf)
+      (fun s => validateShape c (c.o.maxDepth + 1) s focus none) shapes with
   | .error e => .error e
-  | .ok (nonConf, rs, _) => .ok (!nonConf, rs)
+  | .ok (nonConf, rs) => .ok (!nonConf, rs)
 
 /-- `validate()` on prepared graphs: shapes harvest, then `Validator.run`'s loop.
     `focus` / `useShapes` are the expanded `focus_nodes` / `use_shapes` options ([] = not given). -/
@@ -436,7 +468,7 @@ def runValidate (o : Opts) (sg dg : Graph) (rx : Regex) (focus useShapes : List 
     | .error e => .error e
     | .ok shapes =>
       let o' := { o with focusNodes := if focus = [] then none else some focus }
-      validateAll ⟨o', sg, dg, shapes, rx⟩ shapes none
+      validateAll ⟨⟨sg, dg, shapes, rx⟩, o'⟩ shapes none
   | _ => .error (.raw "model:use_shapes-not-in-this-op")
 
 end Pyshacl
